@@ -137,13 +137,14 @@ def gen_case(R, index, tier):
             case["matrix"] = list(GT.affine(R)[1])
     else:
         def member(depth):
-            if depth < 2 and R.random() < 0.3:
-                return {"group": [member(depth + 1) for _ in range(R.randint(0, 3))]}
+            if depth < 3 and R.random() < 0.35:
+                # a group or a use (both are containers of rendered descendants; a use may sit directly in a use)
+                return {"group": [member(depth + 1) for _ in range(R.randint(0, 3))], "container": R.choice(["group", "use", "use"])}
             m = list(GT.affine(R)[1]) if R.random() < 0.6 else None
             if R.random() < 0.5:
                 return {"shape": GG.shape_spec(R), "matrix": m, "paint": R.choice(PAINT), "sw": R.uniform(0.2, 8)}
             return {"path": GG.path(R, nsub=1, maxseg=3), "matrix": m, "paint": R.choice(PAINT), "sw": R.uniform(0.2, 8)}
-        case = {"stratum": "group", "members": [member(0) for _ in range(R.randint(1, 4))]}
+        case = {"stratum": "group", "members": [member(0) for _ in range(R.randint(1, 4))], "top": R.choice(["group", "group", "use"])}
     case["transformed"] = R.random() < 0.7
     case["with_stroke"] = R.random() < 0.5
     return case
@@ -335,7 +336,8 @@ def _run_case(S, case, ctx):
 
     def build(mem):
         if "group" in mem:
-            g = S.Group()
+            g = S.Use() if mem.get("container") == "use" else S.Group()
+            ctx.note("container " + mem.get("container", "group"))
             for c in mem["group"]:
                 g.append(build(c))
             return g
@@ -351,7 +353,7 @@ def _run_case(S, case, ctx):
         boxes.append(o.bbox(transformed=tr, with_stroke=ws))
         return o
 
-    g = S.Group()
+    g = S.Use() if case.get("top") == "use" else S.Group()
     for mem in case["members"]:
         g.append(build(mem))
     ref = B.union(boxes)
